@@ -298,15 +298,23 @@ theorem faceStep_len (cfg : Cfg) (edges : List (Nat × Nat)) (nHE i : Nat) (st :
     (faceStep cfg edges nHE i st).faces.length = st.faces.length + 1 := by
   unfold faceStep at h ⊢
   simp only at h ⊢
-  split at h <;> try (simp at h)
-  split at h <;> try (simp at h)
-  split at h <;> try (simp at h)
-  rename_i h1 h2 hes hidx
-  rw [if_neg h1, if_neg h2, hidx]
-  simp only
-  split at h <;> try (simp at h)
-  rename_i l hd
-  rw [hd]; simp
+  split
+  · rename_i c; rw [if_pos c] at h; simp at h
+  · rename_i c1
+    rw [if_neg c1] at h
+    split
+    · rename_i c; rw [if_pos c] at h; simp at h
+    · rename_i c2
+      rw [if_neg c2] at h
+      split
+      · rename_i hidx; rw [hidx] at h; simp at h
+      · rename_i hes hidx
+        rw [hidx] at h
+        simp only at h
+        split
+        · simp
+        · rename_i hd; rw [hd] at h; simp at h
+        · rename_i hd; rw [hd] at h; simp at h
 
 theorem cellStep_facts (cfg : Cfg) (faces : List (List Nat)) (nHF i : Nat) (st : RS) :
     (cellStep cfg faces nHF i st).verts = st.verts ∧ (cellStep cfg faces nHF i st).edges = st.edges ∧
@@ -361,13 +369,150 @@ theorem cellStep_len (cfg : Cfg) (faces : List (List Nat)) (nHF i : Nat) (st : R
     (cellStep cfg faces nHF i st).cells.length = st.cells.length + 1 := by
   unfold cellStep at h ⊢
   simp only at h ⊢
-  split at h <;> try (simp at h)
-  split at h <;> try (simp at h)
-  rename_i h1 hfs hidx
-  rw [if_neg h1, hidx]
+  split
+  · rename_i c; rw [if_pos c] at h; simp at h
+  · rename_i c1
+    rw [if_neg c1] at h
+    split
+    · rename_i hidx; rw [hidx] at h; simp at h
+    · rename_i hfs hidx
+      rw [hidx] at h
+      simp only at h
+      split
+      · simp
+      · rename_i hd; rw [hd] at h; simp at h
+      · rename_i hd; rw [hd] at h; simp at h
+
+/-! ### sections -/
+
+/-- everything except the stream, the scratch variables and `err` coincides -/
+structure Same (a b : RS) : Prop where
+  verts : a.verts = b.verts
+  edges : a.edges = b.edges
+  faces : a.faces = b.faces
+  cells : a.cells = b.cells
+  props : a.props = b.props
+  fault : a.fault = b.fault
+  dV : a.dV = b.dV
+  dE : a.dE = b.dE
+  dF : a.dF = b.dF
+
+theorem Same.rfl' (a : RS) : Same a a := ⟨rfl, rfl, rfl, rfl, rfl, rfl, rfl, rfl, rfl⟩
+
+theorem expectKeyword_same (kwd : Str) (e : Err) (st : RS) : Same (expectKeyword kwd e st) st := by
+  unfold expectKeyword
   simp only
-  split at h <;> try (simp at h)
-  rename_i l hd
-  rw [hd]; simp
+  split <;> exact ⟨rfl, rfl, rfl, rfl, rfl, rfl, rfl, rfl, rfl⟩
+
+theorem countLine_same (lim : Nat) (st : RS) : Same (countLine lim st).1 st := by
+  unfold countLine
+  simp only
+  split <;> exact ⟨rfl, rfl, rfl, rfl, rfl, rfl, rfl, rfl, rfl⟩
+
+theorem headerPrefix_init (input : Str) :
+    (headerPrefix input).verts = [] ∧ (headerPrefix input).edges = [] ∧ (headerPrefix input).faces = [] ∧
+    (headerPrefix input).cells = [] ∧ (headerPrefix input).props = [] ∧ (headerPrefix input).fault = false := by
+  unfold headerPrefix
+  simp only
+  split
+  · exact ⟨rfl, rfl, rfl, rfl, rfl, rfl⟩
+  · split <;> split <;> exact ⟨rfl, rfl, rfl, rfl, rfl, rfl⟩
+
+structure S1 (st : RS) : Prop where
+  fault : st.fault = false
+  edges : st.edges = []
+  faces : st.faces = []
+  cells : st.cells = []
+  props : st.props = []
+  verts : st.err = none → st.verts.length = st.dV
+
+theorem vertLoop_S1 (n : Nat) (st0 : RS) (he : st0.edges = []) (hf : st0.faces = []) (hc : st0.cells = [])
+    (hp : st0.props = []) (hfa : st0.fault = false) (hv : st0.verts = []) (hd : st0.dV = n) :
+    S1 { loopN vertStep n 0 st0 with verts := (loopN vertStep n 0 st0).verts.reverse } := by
+  have hinv := loopN_inv vertStep
+    (fun st => st.edges = [] ∧ st.faces = [] ∧ st.cells = [] ∧ st.props = [] ∧ st.fault = false ∧ st.dV = n)
+    (fun i st h => by
+      obtain ⟨a1, a2, a3, a4, a5, _, a7, _, _, _⟩ := vertStep_facts i st
+      exact ⟨a1.trans h.1, a2.trans h.2.1, a3.trans h.2.2.1, a4.trans h.2.2.2.1, a5.trans h.2.2.2.2.1, a7.trans h.2.2.2.2.2⟩)
+    n 0 st0 ⟨he, hf, hc, hp, hfa, hd⟩
+  have hcnt := loopN_count vertStep (fun st => st.verts.length)
+    (fun i st _ => (vertStep_facts i st).2.2.2.2.2.2.2.2.2) n 0 st0
+  refine ⟨hinv.2.2.2.2.1, hinv.1, hinv.2.1, hinv.2.2.1, hinv.2.2.2.1, ?_⟩
+  intro herr
+  have h2 := hcnt herr
+  simp only [List.length_reverse]
+  rw [h2, hv, hinv.2.2.2.2.2]
+  simp
+
+theorem sectHeader_S1 (cfg : Cfg) (input : Str) : S1 (sectHeader cfg input) := by
+  obtain ⟨hv, he, hf, hc, hp, hfa⟩ := headerPrefix_init input
+  unfold sectHeader
+  simp only
+  split
+  · rename_i herr
+    exact ⟨hfa, he, hf, hc, hp, fun h => by rw [h] at herr; simp at herr⟩
+  · have hs := countLine_same cfg.lim (headerPrefix input)
+    split
+    · rename_i herr
+      exact ⟨hs.fault.trans hfa, hs.edges.trans he, hs.faces.trans hf, hs.cells.trans hc, hs.props.trans hp,
+        fun h => by rw [h] at herr; simp at herr⟩
+    · exact vertLoop_S1 _ _ (hs.edges.trans he) (hs.faces.trans hf) (hs.cells.trans hc) (hs.props.trans hp)
+        (hs.fault.trans hfa) (hs.verts.trans hv) rfl
+
+structure S2 (st : RS) : Prop where
+  fault : st.fault = false
+  faces : st.faces = []
+  cells : st.cells = []
+  props : st.props = []
+  ok : st.err = none → st.verts.length = st.dV ∧ st.edges.length = st.dE ∧ ∀ e ∈ st.edges, e.1 < st.dV ∧ e.2 < st.dV
+
+theorem edgeLoop_S2 (n nV : Nat) (st0 : RS) (hf : st0.faces = []) (hc : st0.cells = []) (hp : st0.props = [])
+    (hfa : st0.fault = false) (he : st0.edges = []) (hv : st0.verts.length = st0.dV) (hd : st0.dE = n)
+    (hnV : st0.dV = nV) :
+    S2 { loopN (edgeStep nV) n 0 st0 with edges := (loopN (edgeStep nV) n 0 st0).edges.reverse } := by
+  subst hnV
+  have hinv := loopN_inv (edgeStep st0.dV)
+    (fun st => st.faces = [] ∧ st.cells = [] ∧ st.props = [] ∧ st.fault = false ∧ st.verts = st0.verts ∧
+      st.dV = st0.dV ∧ st.dE = n ∧ ∀ e ∈ st.edges, e.1 < st0.dV ∧ e.2 < st0.dV)
+    (fun i st h => by
+      obtain ⟨a1, a2, a3, a4, a5, a6, a7, _⟩ := edgeStep_facts st0.dV i st
+      exact ⟨a2.trans h.1, a3.trans h.2.1, a4.trans h.2.2.1, a5.trans h.2.2.2.1, a1.trans h.2.2.2.2.1,
+        a6.trans h.2.2.2.2.2.1, a7.trans h.2.2.2.2.2.2.1, edgeStep_mem _ _ _ h.2.2.2.2.2.2.2⟩)
+    n 0 st0 ⟨hf, hc, hp, hfa, rfl, rfl, hd, by rw [he]; simp⟩
+  have hcnt := loopN_count (edgeStep st0.dV) (fun st => st.edges.length) (fun i st h => edgeStep_len _ i st h) n 0 st0
+  refine ⟨hinv.2.2.2.1, hinv.1, hinv.2.1, hinv.2.2.1, ?_⟩
+  intro herr
+  have h2 := hcnt herr
+  refine ⟨?_, ?_, ?_⟩
+  · show (loopN (edgeStep st0.dV) n 0 st0).verts.length = (loopN (edgeStep st0.dV) n 0 st0).dV
+    rw [hinv.2.2.2.2.1, hinv.2.2.2.2.2.1]; exact hv
+  · show (loopN (edgeStep st0.dV) n 0 st0).edges.reverse.length = (loopN (edgeStep st0.dV) n 0 st0).dE
+    rw [List.length_reverse, h2, he, hinv.2.2.2.2.2.2.1]; simp
+  · intro e hm
+    have hm' : e ∈ (loopN (edgeStep st0.dV) n 0 st0).edges := by simpa using hm
+    show e.1 < (loopN (edgeStep st0.dV) n 0 st0).dV ∧ e.2 < (loopN (edgeStep st0.dV) n 0 st0).dV
+    rw [hinv.2.2.2.2.2.1]
+    exact hinv.2.2.2.2.2.2.2 e hm'
+
+theorem sectEdges_S2 (cfg : Cfg) (st : RS) (h1 : S1 st) (herr0 : st.err = none) : S2 (sectEdges cfg st) := by
+  have hk := expectKeyword_same kEDGES .noEdges st
+  unfold sectEdges
+  simp only
+  split
+  · rename_i herr
+    exact ⟨hk.fault.trans h1.fault, hk.faces.trans h1.faces, hk.cells.trans h1.cells, hk.props.trans h1.props,
+      fun h => by rw [h] at herr; simp at herr⟩
+  · have hs := countLine_same cfg.lim (expectKeyword kEDGES .noEdges st)
+    split
+    · rename_i herr
+      exact ⟨hs.fault.trans (hk.fault.trans h1.fault), hs.faces.trans (hk.faces.trans h1.faces),
+        hs.cells.trans (hk.cells.trans h1.cells), hs.props.trans (hk.props.trans h1.props),
+        fun h => by rw [h] at herr; simp at herr⟩
+    · exact edgeLoop_S2 _ _ _ (hs.faces.trans (hk.faces.trans h1.faces)) (hs.cells.trans (hk.cells.trans h1.cells))
+        (hs.props.trans (hk.props.trans h1.props)) (hs.fault.trans (hk.fault.trans h1.fault))
+        (hs.edges.trans (hk.edges.trans h1.edges))
+        (by
+          show (countLine cfg.lim (expectKeyword kEDGES .noEdges st)).1.verts.length = (countLine cfg.lim (expectKeyword kEDGES .noEdges st)).1.dV
+          rw [hs.verts, hk.verts, hs.dV, hk.dV]; exact h1.verts herr0) rfl rfl
 
 end OVM.Ascii
